@@ -92,7 +92,18 @@ def _check_xmd(rep, name, max_ell, msg_max):
     def on_path(pth):
         rep.paths += 1
         if pth.kind == "unwind":
+            # the loop was cut, but b_0 and b_1 were already computed: their inputs are checked for EVERY requested length
+            # (this is where len_in_bytes >= 256 and long tags meet the I2OSP(len_in_bytes, 2) / I2OSP(|DST|, 1) encodings)
             seen["unwind"] += 1
+            calls = [c for c in pth.ctx.notes if c[0] == "hash"]
+            msg_t, dst_t, n_t = z3.Const("msg", SEQ), z3.Const("dst", SEQ), z3.Int("n")
+            inputs, _ = rfc_xmd_calls(name, msg_t, dst_t, n_t, min(len(calls) - 1, max_ell + 1))
+            for i, (c, want) in enumerate(list(zip(calls, inputs))[:3]):
+                g, m = pth.ctx.prove(c[2] == want, timeout_ms=120000)
+                a = {"hash": name}
+                if m is not None:
+                    a.update(n=str(m.eval(n_t, model_completion=True)), dst_len=str(m.eval(z3.Length(dst_t), model_completion=True)))
+                require(rep, g, "%s (any larger length, loop cut): input of hash call %d equals the RFC transcription" % (name, i), pth.decisions, {"kind": "c15_xmd", "args": a})
             return
         if pth.kind != "ret":
             g, m = pth.ctx.satisfiable()
